@@ -961,6 +961,10 @@ def make_logging_undefined(
             _log_message(self)
             return super().__iter__()  # type: ignore
 
+        def __aiter__(self) -> t.AsyncIterator[t.Any]:
+            _log_message(self)
+            return super().__aiter__()  # type: ignore
+
         def __bool__(self) -> bool:
             _log_message(self)
             return super().__bool__()  # type: ignore
